@@ -5,8 +5,8 @@
    of objects (variables, biases) the dispatcher looks names up in.  The 86 command BODIES are not modelled
    (apart from delete/reset/config on the object sets); number agreement and crash freedom of the C++ are
    checked by the oracle of props/C20/check.py, not proved. *)
-From Coq Require Import ZArith List Bool String.
-From CV Require Import C20.ScriptModel C20.ScriptProofs C20.ScriptTable Gen.GenScript.
+From Coq Require Import ZArith List Bool String Permutation.
+From CV Require Import C20.ScriptModel C20.ScriptProofs C20.ScriptTable C20.GradModel C20.GradProofs Gen.GenScript.
 Import ListNotations.
 Local Open Scope string_scope.
 Local Open Scope Z_scope.
@@ -109,6 +109,28 @@ Theorem C20_delete_effect : forall n st,
 Proof. exact delete_effect. Qed.
 Print Assumptions C20_delete_effect.
 
+(* `colvar getgradients` / `getatomids` (colvar::build_atom_list + cvc::collect_gradients): for any exact commutative and
+   associative addition of contributions, the array depends only on the multiset of (atom id, contribution) pairs - not on
+   the order in which the user listed the atoms of a group, nor on how they are spread over groups, components and fitting
+   groups *)
+Theorem C20_gradients_listing_order_irrelevant : forall (T : Type) (add : T -> T -> T),
+  (forall a b, add a b = add b a) -> (forall a b c, add a (add b c) = add (add a b) c) ->
+  forall ids acc grps grps', Permutation (List.concat grps) (List.concat grps') ->
+  collect_groups add ids acc grps = collect_groups add ids acc grps'.
+Proof. exact gradients_listing_order_irrelevant. Qed.
+Print Assumptions C20_gradients_listing_order_irrelevant.
+
+(* the id list is increasing and holds exactly the ids of the groups, and the entry found for id a holds exactly what was
+   contributed under id a (for every addition, commutative or not: the order of the contributions is the listing order) *)
+Theorem C20_gradients_attributed_to_their_ids : forall (T : Type) (add : T -> T -> T) (zero : T) (grps : list (list (Z * T))),
+  let ids := build_ids (map (map fst) grps) in
+  increasing ids = true /\
+  (forall a, In a ids <-> In a (map fst (List.concat grps))) /\
+  forall a, In a ids ->
+    nth (lower_bound ids a) (collect_groups add ids (repeat zero (List.length ids)) grps) zero = total_for add zero a (List.concat grps).
+Proof. exact gradients_attributed_to_their_ids. Qed.
+Print Assumptions C20_gradients_attributed_to_their_ids.
+
 (* ---- the premises of the implications above are satisfiable ---- *)
 Example C20_example_dispatch :
   dispatch script_table ["x"] [] ["cv"; "version"] = Run OModule ("cv_version", 0, 0) true /\
@@ -142,3 +164,15 @@ Example C20_example_history :
   exec script_table ex_parse ex_read ex_st ["cv"; "config"; "B"] = (ex_st, Run OModule ("cv_config", 1, 1) true, BErr) /\
   is_error (dispatch script_table (st_cvs ex_st) (bias_names ex_st) ["cv"; "bias"; "h"; "energy"; "1"]) = true.
 Proof. vm_compute. repeat split. Qed.
+
+(* a group listed in decreasing id order and an atom shared by two groups *)
+Example C20_example_gradients :
+  build_ids [[3; 1]; [4; 1]] = [1; 3; 4] /\
+  collect_groups Z.add [1; 3; 4] [0; 0; 0] [[(3, 10); (1, 20)]; [(4, 5); (1, 7)]] = [27; 10; 5] /\
+  Permutation (List.concat [[(3, 10); (1, 20)]; [(4, 5); (1, 7)]]) (List.concat [[(1, 20); (3, 10); (1, 7)]; [(4, 5)]]) /\
+  collect_groups Z.add [1; 3; 4] [0; 0; 0] [[(1, 20); (3, 10); (1, 7)]; [(4, 5)]] = [27; 10; 5].
+Proof.
+  repeat split; try reflexivity. cbn [List.concat app].
+  apply Permutation_trans with ((1, 20) :: (3, 10) :: (4, 5) :: (1, 7) :: nil); [apply perm_swap|].
+  apply perm_skip, perm_skip, perm_swap.
+Qed.
